@@ -1,6 +1,7 @@
 import RzmqModel.Driver.Common
 import RzmqModel.Model.Routing
 import RzmqModel.Model.Multipart
+import RzmqModel.Model.Pool
 namespace Rzmq.Driver.Routing
 open Rzmq Rzmq.Driver
 
@@ -9,6 +10,7 @@ structure St where
   lb : Lb := {}
   map : RouterMap := {}
   stash : Stash := {}
+  pool : Option Pool := none
 
 def b (v : Bool) : String := if v then "true" else "false"
 
@@ -37,6 +39,26 @@ def stashOp (st : St) (ev : StashEv) : St × String :=
 
 def runOp (st : St) (p : List String) : St × String :=
   match p with
+  | ["pool", "new", c, cap] => ({ st with pool := some (Pool.new c.toNat! cap.toNat!) }, "ok")
+  | "pool" :: rest =>
+    match st.pool with
+    | none => (st, "no-pool")
+    | some pl =>
+      let showId : Option Nat → String := fun o => match o with | some i => toString i | none => "none"
+      match rest with
+      | ["acquire", len] => let r := pl.step (.acquire len.toNat!); ({ st with pool := some r.1 }, showId r.2)
+      | ["lease"] => let r := pl.step .lease; ({ st with pool := some r.1 }, showId r.2)
+      | ["droplease", id, handed] =>
+        let i := id.toNat!
+        let had := pl.leases.any (·.1 == i)
+        let pl1 := if handed == "1" then (pl.step (.handOver i)).1 else pl
+        ({ st with pool := some (pl1.step (.dropLease i)).1 }, b had)
+      | ["release", id] =>
+        if pl.leases.any (·.1 == id.toNat!) then (st, "held")     -- not the worker's to release: a session holds the lease
+        else ({ st with pool := some (pl.step (.release id.toNat!)).1 }, "ok")
+      | ["state"] =>
+        (st, s!"free=[{",".intercalate (pl.free.map toString)}] used=[{String.join (pl.used.map fun u => if u then "1" else "0")}]")
+      | _ => (st, "bad-op")
   | ["stash", "new"] => ({ st with stash := {} }, "ok")
   | ["stash", "pipe", id, cap] => stashOp st (.register id.toNat! cap.toNat!)
   | ["stash", "put", id, m] => stashOp st (.put id.toNat! (parseMessage m))
